@@ -241,6 +241,25 @@ fn panic_msg(e: Box<dyn std::any::Any + Send>) -> String {
     }
 }
 
+static LAST_PANIC_LOC: std::sync::Mutex<Option<String>> = std::sync::Mutex::new(None);
+
+/// Called from the panic hook: remembers where the last panic was raised
+/// (crate-relative path and line), the stable part of a panic's identity.
+pub fn note_panic_location(loc: Option<String>) {
+    let loc = loc.map(|l| match l.find("/rpki-") {
+        Some(i) if l.contains(".cargo/registry") => l[i + 1..].to_string(),
+        _ => match l.find(".cargo/registry/src/") {
+            Some(i) => l[i..].splitn(5, '/').last().unwrap_or(&l).to_string(),
+            None => l.trim_start_matches("/repo/").to_string(),
+        },
+    });
+    *LAST_PANIC_LOC.lock().unwrap_or_else(|e| e.into_inner()) = loc;
+}
+
+pub fn last_panic_location() -> Option<String> {
+    LAST_PANIC_LOC.lock().unwrap_or_else(|e| e.into_inner()).clone()
+}
+
 /// Runs a closure catching panics and would-be exits.
 pub fn guarded<T>(f: impl FnOnce() -> T) -> Result<T, Crash> {
     match catch_unwind(AssertUnwindSafe(f)) {
